@@ -37,6 +37,20 @@ Theorem C14_nostd :
             is_external_root crate_graph (mn_root m) = true -> mn_root m = "core").
 Proof. exact nostd_holds. Qed.
 
+(* The mechanism named by the property: `#![cfg_attr(not(feature = "std"), no_std)]` — the crate is no_std EXACTLY
+   when the cargo feature `std` is off, for every architecture, nightly on or off, any target-feature set. *)
+Theorem C14_nostd_exact :
+  forall bc, has_no_std crate_graph bc = negb (bc_std bc).
+Proof. exact nostd_exact_holds. Qed.
+
+(* No configuration compiles an `extern crate` declaration other than `extern crate core`: `alloc` and `std` are
+   never pulled in by name, neither unconditionally nor behind cfg(feature = "std") (an `extern crate alloc` behind
+   the std feature is exactly the change the property's rationale worries about). *)
+Theorem C14_no_extern_crate :
+  forall bc it, In it (cg_items crate_graph) -> item_active crate_graph bc it = true ->
+    it_kind it = IExternCrate -> it_name it = "core".
+Proof. exact extern_crate_holds. Qed.
+
 (* Cargo.toml: every dependency table entry is a dev-dependency (so `[dependencies]`, `[build-dependencies]`
    and every `[target.*.dependencies]` are empty: nothing is linked into the library); there is no build script
    (nothing can inject cfg flags) and no proc-macro; `std` is a plain switch that is part of `default` and is not
